@@ -4,3 +4,4 @@ import PgmVerif.Model.BN
 import PgmVerif.Model.VE
 import PgmVerif.Model.CPD
 import PgmVerif.Model.Graph
+import PgmVerif.Model.History
